@@ -64,8 +64,13 @@ _parse_text = ("Both public parse entry points are driven over every token seque
     "91-kind token alphabet as oq3_parser::Input (all jointness patterns up to length 3/4) and rendered to text, plus the robustness corpus (repository texts, "
     "mutations, random UTF-8, token soup, deep nesting); hooks turn non-terminating grammar loops into attributable panics; a stride sample of the recorded parse "
     "observations is validated by TLC against TreeTrace.tla/TreeShape.tla. ")
-CHECKS["C01"] = dict(level="model_checking", design="5/C01", text=_parse_text + "C01 verdict: the call returns, parser events <= 64*(tokens+1).",
-    note="bounds: random inputs <= 4 KiB, nesting <= 64; rowan trusted", technique="bounded-exhaustive token sequences + TLC trace validation (TreeTrace.tla) of recorded parses", engine="walker+tlc")
+CHECKS["C01"] = dict(level="model_checking", design="5/C01", text=_parse_text + "C01 verdict: the call returns, parser events <= 64*(tokens+1). "
+    "Grammar.tla is a machine spec of the whole grammar (every function of grammar.rs, items.rs, expressions.rs, atom.rs, params.rs over the Parser/Marker API); TLC (MCGrammar) visits every token "
+    "sequence of nine families up to 2-5 tokens (5.7e5 states; thorough 3e6) plus seeded simulations of 14-16 tokens, proves C01_Model in every state (no failed assertion/unreachable, every loop "
+    "iteration makes progress, all tokens consumed once, one balanced tree after event::process, linear work) and exports every state; the real parser is run on the same Input and its raw events "
+    "(kinds, forward parents, glued tokens, error messages) compared with the model's.",
+    note="bounds: random inputs <= 4 KiB, nesting <= 64; rowan trusted; a difference between the real events and the machine spec is model drift, the verdict comes from the real run",
+    technique="TLA+ machine spec of the grammar model-checked by TLC for the C01 clauses + every explored token sequence replayed into the real parser; bounded-exhaustive token sequences + TLC trace validation (TreeTrace.tla) of recorded parses", engine="tlc+replay+walker")
 CHECKS["C02"] = dict(level="model_checking", design="5/C02", text=_parse_text + "C02 verdict: TreeShape!Lossless (root, leaf text, tiling, node = span of children) on every observation. "
     "Protocol level: Events.tla models Parser/Marker/CompletedMarker, event::process (forward parents, tombstones) and intersperse_trivia/Builder; TLC proves TreeShapeHolds, BuilderNeverOverruns and Balanced "
     "for every disciplined call sequence up to the bound over every trivia layout (2.4e5 / 2e7 states) and every finished behaviour (3.2e3 / 1.1e5) is executed on the real Marker API, process and intersperse_trivia "
